@@ -198,3 +198,141 @@ Proof.
     destruct (gen_erase_range_single it_eqb it_neqb it_end it_begin it_next ev_clear key_of key_count mm_make remove_key remove_value st first last H1 H2 H3) as [A B].
     rewrite A, B. reflexivity.
 Qed.
+
+(* ================================================================ erase(first, last): generated = hand model *)
+(* interpretation of the primitives over a model container: iterators are positions of begin()..end(); a key iterator is the
+   key id (>= 0); the iterators RETURNED by RemoveKey / Remove are negative markers (even: which key was removed; odd: which
+   position), so that the effect the generated code chose can be read off its result *)
+Fixpoint offset (es : list entry) (k : Z) : Z :=
+  match es with [] => 0 | e :: r => if ekey e =? k then 0 else elen e + offset r k end.
+
+Section EraseInterp.
+Variable M : Z.
+Variable m : mm.
+Let es := fst m.
+Let n : Z := Z.of_nat (length (pairs m)).
+
+Definition e_key_of (p : Z) : Z := match locate es (Z.to_nat p) with Some (k, _) => k | None => -1 end.
+Definition e_key_count (k : Z) : Z := Z.of_nat (w_count m k).
+Definition e_mm_make (h j : Z) : Z := if h <? 0 then h else offset es h + j.
+Definition e_remove_key (k : Z) : Z := - (2 * k) - 2.
+Definition e_remove_value (p : Z) : Z := - (2 * p) - 1.
+
+Definition gen_erase (a b : nat) :=
+  Gen_WrapErase.erase_range Z.eqb (fun x y => negb (x =? y)) n 0 (fun p => p + 1) (fun _ => 1)
+    e_key_of e_key_count e_mm_make e_remove_key e_remove_value 0 (Z.of_nat a) (Z.of_nat b).
+
+(* reading the effect off the generated result *)
+Definition apply_gen_result (res : outcome (Z * Z)) : erase_result :=
+  match res with
+  | Ok (it, st) =>
+      if st =? 1 then ErOk (w_clear M m)
+      else if it <? 0 then
+        if Z.even it then ErOk (step1 M m (ORemoveKey ((- it - 2) / 2)))
+        else match locate es (Z.to_nat ((- it - 1) / 2)) with
+             | Some (k, i) => ErOk (step1 M m (ORemove k i))
+             | None => ErThrow
+             end
+      else ErOk m
+  | _ => ErThrow
+  end.
+
+Hypothesis ND : NoDup (keys es).
+Hypothesis KP : forall e, In e es -> 0 <= ekey e.
+
+Lemma locate_some : forall (l : list entry) a, (a < length (all_pairs l))%nat -> exists k i, locate l a = Some (k, i).
+Proof.
+  induction l as [|e r IH]; intros a H; [simpl in H; lia|].
+  rewrite all_pairs_cons, app_length, length_pairs_of in H. simpl.
+  destruct (Nat.ltb_spec a (length (evals e))); [eauto|]. apply IH. lia.
+Qed.
+
+Lemma locate_key_in : forall (l : list entry) a k i, locate l a = Some (k, i) -> In k (keys l).
+Proof.
+  induction l as [|e r IH]; simpl; intros a k i H; [discriminate|].
+  destruct (a <? length (evals e))%nat; [inversion H; auto|]. right. eapply IH; eauto.
+Qed.
+
+Lemma locate_offset : forall (l : list entry) a k i, NoDup (keys l) -> locate l a = Some (k, i) ->
+  offset l k + Z.of_nat i = Z.of_nat a.
+Proof.
+  induction l as [|e r IH]; simpl; intros a k i N H; [discriminate|]. inversion N; subst.
+  destruct (Nat.ltb_spec a (length (evals e))).
+  - inversion H; subst. rewrite Z.eqb_refl. lia.
+  - pose proof (locate_key_in _ _ _ _ H) as I.
+    destruct (Z.eqb_spec (ekey e) k) as [E|NE]; [subst; contradiction|].
+    rewrite <- Z.add_assoc, (IH _ _ _ H3 H). unfold elen. lia.
+Qed.
+
+Lemma locate_key_nonneg a k i : locate es a = Some (k, i) -> 0 <= k.
+Proof.
+  intros H. pose proof (locate_key_in _ _ _ _ H) as I. unfold keys in I. apply in_map_iff in I.
+  destruct I as (e & <- & I). auto.
+Qed.
+
+Lemma decode_rk k : 0 <= k -> apply_gen_result (Ok (e_remove_key k, 0)) = ErOk (step1 M m (ORemoveKey k)).
+Proof.
+  intros K0. unfold apply_gen_result, e_remove_key. change (0 =? 1) with false. cbv iota.
+  destruct (Z.ltb_spec (- (2 * k) - 2) 0); [|lia].
+  assert (Z.even (- (2 * k) - 2) = true) as ->.
+  { replace (- (2 * k) - 2) with (2 * (- k - 1)) by lia. rewrite Z.even_mul. reflexivity. }
+  assert ((- (- (2 * k) - 2) - 2) / 2 = k) as ->; [|reflexivity].
+  replace (- (- (2 * k) - 2) - 2) with (k * 2) by lia. apply Z.div_mul; lia.
+Qed.
+
+Lemma decode_rv a k i : locate es a = Some (k, i) ->
+  apply_gen_result (Ok (e_remove_value (Z.of_nat a), 0)) = ErOk (step1 M m (ORemove k i)).
+Proof.
+  intros LOC. unfold apply_gen_result, e_remove_value. change (0 =? 1) with false. cbv iota.
+  destruct (Z.ltb_spec (- (2 * Z.of_nat a) - 1) 0); [|lia].
+  assert (Z.even (- (2 * Z.of_nat a) - 1) = false) as ->.
+  { replace (- (2 * Z.of_nat a) - 1) with (1 + 2 * (- Z.of_nat a - 1)) by lia. rewrite Z.even_add_mul_2. reflexivity. }
+  assert ((- (- (2 * Z.of_nat a) - 1) - 1) / 2 = Z.of_nat a) as ->.
+  { replace (- (- (2 * Z.of_nat a) - 1) - 1) with (Z.of_nat a * 2) by lia. apply Z.div_mul; lia. }
+  rewrite Nat2Z.id, LOC. reflexivity.
+Qed.
+
+Lemma decode_clear it : apply_gen_result (Ok (it, 1)) = ErOk (w_clear M m).
+Proof. reflexivity. Qed.
+
+Lemma decode_noop a : apply_gen_result (Ok (Z.of_nat a, 0)) = ErOk m.
+Proof. unfold apply_gen_result. change (0 =? 1) with false. cbv iota. destruct (Z.ltb_spec (Z.of_nat a) 0); [lia|reflexivity]. Qed.
+
+Theorem gen_erase_range_refines a b : (a <= b <= length (pairs m))%nat ->
+  apply_gen_result (gen_erase a b) = w_erase_range M m a b.
+Proof.
+  intros Hab. unfold gen_erase, Gen_WrapErase.erase_range, Gen_WrapErase.erase_where, w_erase_range, it_id.
+  fold n. rewrite (nat_Z_eqb a b).
+  destruct (Nat.eqb_spec a b) as [->|NE]; [apply decode_noop|].
+  assert ((Z.of_nat a =? n) = (a =? length (pairs m))%nat) as EN by (unfold n; apply nat_Z_eqb).
+  rewrite EN.
+  assert (forall x : nat, ((Z.of_nat a =? 0) && (Z.of_nat x =? n)) = ((a =? 0)%nat && (x =? length (pairs m))%nat)) as CLR.
+  { intros x. unfold n. rewrite <- (nat_Z_eqb x), <- (nat_Z_eqb a 0). reflexivity. }
+  destruct (Nat.eqb_spec a (length (pairs m))) as [EA|NA]; cbv [negb]; cbv iota; [lia|].
+  destruct (Nat.ltb_spec a (length (pairs m))) as [LT|GE]; [|lia].
+  destruct (locate_some es a LT) as (k & i & LOC). fold es. rewrite LOC.
+  assert (e_key_of (Z.of_nat a) = k) as KO by (unfold e_key_of; rewrite Nat2Z.id, LOC; reflexivity).
+  pose proof (locate_key_nonneg _ _ _ LOC) as K0.
+  pose proof (locate_offset es a k i ND LOC) as OFF.
+  replace (Z.of_nat a + 1) with (Z.of_nat (S a)) by lia. rewrite (nat_Z_eqb (S a) b).
+  assert (e_mm_make (e_remove_key k) 0 = e_remove_key k) as MK.
+  { unfold e_mm_make, e_remove_key. destruct (Z.ltb_spec (- (2 * k) - 2) 0); [reflexivity|lia]. }
+  destruct (Nat.eqb_spec (S a) b) as [EB|NB].
+  - (* single element *)
+    rewrite KO. unfold w_erase_at, e_key_count. change 1 with (Z.of_nat 1). rewrite nat_Z_eqb.
+    destruct (Nat.eqb_spec (w_count m k) 1).
+    + rewrite MK. apply decode_rk; auto.
+    + apply decode_rv; auto.
+  - rewrite KO. unfold e_mm_make at 1 2. destruct (Z.ltb_spec k 0); [lia|].
+    assert ((Z.of_nat a =? offset es k + 0) = (i =? 0)%nat) as E1.
+    { destruct (Z.eqb_spec (Z.of_nat a) (offset es k + 0)); destruct (Nat.eqb_spec i 0); auto; lia. }
+    rewrite E1. destruct (Nat.eqb_spec i 0) as [I0|I0]; cbn [andb].
+    + assert ((Z.of_nat b =? offset es k + e_key_count k) = (b =? a + w_count m k)%nat) as E2.
+      { unfold e_key_count. destruct (Z.eqb_spec (Z.of_nat b) (offset es k + Z.of_nat (w_count m k)));
+          destruct (Nat.eqb_spec b (a + w_count m k)); auto; lia. }
+      rewrite E2. destruct (Nat.eqb_spec b (a + w_count m k)).
+      * rewrite MK. apply decode_rk; auto.
+      * rewrite (CLR b). destruct ((a =? 0)%nat && (b =? length (pairs m))%nat); [apply decode_clear|reflexivity].
+    + rewrite (CLR b). destruct ((a =? 0)%nat && (b =? length (pairs m))%nat); [apply decode_clear|reflexivity].
+Qed.
+End EraseInterp.
